@@ -17,7 +17,7 @@ from __future__ import annotations
 import ast
 from typing import Any, Dict, List, Optional, Tuple
 
-from ..absint import Evaluator, Const, Sym, Env, TOP
+from ..absint import Evaluator, Const, Sym, Env, TOP, NOT_HANDLED as NOT_HANDLED_
 from ..cfg import cfg_of
 from ..flow import flow_of
 from ..model import unparse, stmt_key, Func, AnchorError
@@ -186,6 +186,40 @@ def star_args_bound_whole(ctx: Ctx, rule: str) -> int:
                         ok_site = y
         if ok_site is not None:
             rep.ok(rule, f.qname, desc + f" (`{unparse(ok_site, 30)}`)", f.loc(ok_site))
+            # ... and the binding is a constant only when EVERY one of these arguments is: abstract evaluation of the expression that chooses between "no hash" and the hash
+            # of the collected hashes, on sample collections (one unknown among known ones -> no hash)
+            for st in ast.walk(loop):
+                if not (isinstance(st, ast.If) and any(isinstance(x, ast.Attribute) and x.attr == "VAR_POSITIONAL" for x in ast.walk(st.test))):
+                    continue
+                for asg in [y for y in ast.walk(ast.Module(body=st.body, type_ignores=[])) if isinstance(y, ast.Assign) and isinstance(y.value, ast.IfExp)]:
+                    hashed = [y for y in ast.walk(asg.value) if isinstance(y, ast.Call) and (prog.dotted(f, y.func) or "").endswith("dds_hash") and y.args and isinstance(y.args[0], ast.Name)]
+                    if not hashed:
+                        continue
+                    rv = hashed[0].args[0].id
+                    n += 1
+                    d2 = f"{f.name}: `{unparse(asg.value, 60)}` gives no hash as soon as one of the *args values is not a constant"
+                    samples = [([None, "h"], True), (["h", None], True), ([None, None], True), (["h1", "h2"], False), ([], False)]
+                    wrong = []
+                    for smp, want_none in samples:
+                        env_ = Env()
+                        env_.vars[rv] = Const(list(smp))
+                        ev_ = Evaluator(prog, oracle=lambda name, a_, k_, nd_: Const("HASH") if name.endswith("dds_hash") else NOT_HANDLED_)
+                        try:
+                            v_ = ev_.eval(asg.value, env_, f)
+                        except Exception as e_:
+                            wrong = [f"not evaluated: {type(e_).__name__}: {e_}"]
+                            break
+                        is_none = isinstance(v_, Const) and v_.v is None
+                        if is_none != want_none:
+                            wrong.append(f"{rv} = {smp}: {'no hash' if is_none else 'a hash'} (expected {'no hash' if want_none else 'a hash'})")
+                    if wrong and wrong[0].startswith("not evaluated"):
+                        rep.unknown(rule, f.qname, d2, f.loc(asg), wrong)
+                    elif wrong:
+                        rep.bad(rule, f.qname, d2, f.loc(asg), wrong + ["`dds.keep('/stats', collect, 1, scale)` with `def collect(*vals)`: the literal 1 and the variable `scale` are hashed as a "
+                                "constant binding: changing the value behind `scale` keeps the signature and serves the stale result"], stmt_key(asg),
+                                what="a *args binding that mixes literals and run-time values is keyed as a constant")
+                    else:
+                        rep.ok(rule, f.qname, d2, f.loc(asg))
         else:
             rep.bad(rule, f.qname, desc, f.loc(loop), [f"{f.loc(loop)}: Parameter.VAR_POSITIONAL is among the accepted kinds {sorted(accepted)} but no branch on it consumes `{pos}[{idx_var}:]`",
                     "`def g(*vals): return dds.keep('/p', ident, vals)`: g(1, 2) and g(1, 3) bind only the first value to `vals`: same signature, the second call is served (1, 2)"],
